@@ -54,6 +54,7 @@ void carquet_buffer_destroy(carquet_buffer_t *b) {
   if (b->owns_data) free(b->data);
   b->data = NULL; b->size = 0; b->capacity = 0;
 }
+_Bool g_any_append_failed;   /* ghost: some buffer growth (append or Thrift output) failed since the harness reset it */
 carquet_status_t carquet_buffer_append(carquet_buffer_t *b, const void *data, size_t size) {
   __CPROVER_precondition(__CPROVER_rw_ok(b, sizeof(*b)), "append: buffer struct accessible");
   __CPROVER_precondition(size == 0 || __CPROVER_r_ok(data, size), "append: source range readable");
@@ -62,13 +63,15 @@ carquet_status_t carquet_buffer_append(carquet_buffer_t *b, const void *data, si
   if (size != 0) st = pw_grow(b, size);
   g_last_app_buf = b; g_last_app_src = data; g_last_app_len = size; g_last_app_ret = st; g_last_app_ev = ++g_ev;
   g_last_app_dirty = g_wcrc_dirty;
+  if (st != CARQUET_OK) g_any_append_failed = 1;
   return st;
 }
 
 static void pw_thrift(thrift_encoder_t *enc) {
   size_t k = nondet_size_t();
   __CPROVER_assume(k >= 1 && k <= 16);
-  (void)pw_grow(enc->buffer, k);
+  /* real thrift_encode.c: a failed append of the encoded bytes is latched in enc->status (set_error) */
+  if (pw_grow(enc->buffer, k) != CARQUET_OK) { if (enc->status == CARQUET_OK) enc->status = CARQUET_ERROR_OUT_OF_MEMORY; g_any_append_failed = 1; }
   g_last_thrift_ev = ++g_ev;
   if (!g_first_thrift_ev) g_first_thrift_ev = g_ev;
 }
@@ -181,6 +184,7 @@ void h_c14_finalize(void) {
   __CPROVER_assume(w->min_max_size <= sizeof(w->min_value));   /* set only to sizeof(int32/int64/float/double) by update_statistics_* */
   const uint8_t *pd = NULL; size_t ps = 0; int32_t us = 0, cs = 0;
   bool wcrc = w->write_crc;
+  g_any_append_failed = 0;
   carquet_status_t st = carquet_page_writer_finalize(w, &pd, &ps, &us, &cs);
   if (st == CARQUET_OK) {
     CQV_CANARY("finalize can succeed");
@@ -190,9 +194,10 @@ void h_c14_finalize(void) {
     /* the last thing that happens to the page buffer is the append of the stored bytes */
     __CPROVER_assert(g_last_app_buf == &w->page_buffer && g_last_app_ev > g_last_thrift_ev, "stored bytes are appended after the complete header");
     __CPROVER_assert(g_f3_n == 1 && g_f3 == (int32_t)g_last_app_len && cs == g_f3, "compressed_page_size field and out-parameter are the appended length");
-    if (g_last_app_ret == CARQUET_OK) {
-      __CPROVER_assert(pd == w->page_buffer.data && ps == w->page_buffer.size && ps == g_last_app_presize + g_last_app_len, "returned page = header bytes followed by exactly the appended bytes");
-    }
+    /* C19: success is reported only when no allocation (buffer growth) failed on the way */
+    __CPROVER_assert(!g_any_append_failed, "C19: finalize returns OK only if every buffer append (body assembly, header, stored bytes) succeeded");
+    __CPROVER_assert(g_last_app_ret == CARQUET_OK, "C19: the append of the stored bytes succeeded when finalize returns OK");
+    __CPROVER_assert(pd == w->page_buffer.data && ps == w->page_buffer.size && ps == g_last_app_presize + g_last_app_len, "returned page = header bytes followed by exactly the appended bytes");
     if (wcrc) {
       CQV_CANARY("finalize with CRC");
       __CPROVER_assert(g_wcrc_calls == 1, "C14: one checksum per page");
